@@ -122,6 +122,9 @@ Section WithFacts.
       do r <- do_coerce x ns h field (key_to_value field) false "RENAMING_FAILED";
       let '(ns', newv) := r in
       if py_eq newv (key_to_value field) then Ok ns'
+      else if negb (hashable newv) then
+        (* mapping[new_name] = ... raised TypeError: reported as a failed renaming, the field keeps its name *)
+        nfile x ns' field "RENAMING_FAILED" [VStr "The new name must be hashable."]
       else
         do nk <- value_key "_normalize_rename_handler" newv;
         do m' <- move_key "_normalize_rename_handler" (n_map ns') field nk;
@@ -135,6 +138,7 @@ Section WithFacts.
         do has <- rs_has "_normalize_rename" rs "rename";
         do ns1 <- (if has then
                      do tgt <- rs_get_default "_normalize_rename" rs "rename" VNone;
+                     if py_eq tgt (key_to_value field) then Ok ns else       (* renamed to its own name: nothing to do *)
                      do nk <- value_key "_normalize_rename" tgt;
                      do m' <- move_key "_normalize_rename" (n_map ns) field nk;
                      Ok {| n_map := m'; n_errs := n_errs ns |}
